@@ -8,6 +8,27 @@ from . import rules_cache, rules_guard, rules_fs, rules_ef, rules_sd, rules_walk
 
 PROPS = {}
 
+# Additional property coverage of rules (each rule is a necessary condition of these properties too):
+EXTRA = {
+    "OR2": ["C01", "C09"],   # a truncated chain that is not terminated / freed correctly aliases other files' data
+    "FT9": ["C01", "C09"],
+    "OR1": ["C01", "C09"],   # a "new" cluster that was not verified free belongs to another file
+    "OR4": ["C03", "C01"],   # recorded length never runs ahead of the data/chain actually written
+    "LS4": ["C04", "C07"],   # walker extent decides which blocks a create may write; lookup extent decides 'exists'
+    "CD1": ["C09"],          # the flushed entry must encode the start cluster correctly
+    "CD4": ["C09"],
+    "SD9": ["C12"],          # framing of data packets decides which bytes are taken as the next block
+    "SD10": ["C12"],
+    "FT5": ["C01"],
+    "BM1": ["C02"],
+    "MD9x": ["C09"],
+}
+for _r, _ps in EXTRA.items():
+    if _r in RULES:
+        for _p_ in _ps:
+            if _p_ not in RULES[_r]["props"]:
+                RULES[_r]["props"].append(_p_)
+
 
 def rules_for(prop):
     return [rid for rid, spec in RULES.items() if prop in spec["props"]]
